@@ -1092,7 +1092,7 @@ func c03Scenarios(tier string) []Scenario {
 func init() {
 	register(&Property{ID: "C03", Level: "model_checking",
 		Technique: "stateless model checking of the real server under a controlled scheduler (all schedules within a preemption bound)",
-		Rule:      "every schedule with at most P preemptions (P iterated 0..bound, select-case choices free) of server recv/worker/send goroutines + scripted implementation + releaser, per scenario (request kinds x scripts x release order x Maxpend x dialect x segmentation; late answers of cancelled requests; a reactive client re-using a tag the moment its reply is read, with and without a Tflush of the second use and a third use after the Rflush; sessions renegotiated to a larger / smaller msize with reads of every size class; two connections of one server with different msize used in turn); distinct = distinct per-object operation orders (trace hash)",
+		Rule:      "every schedule with at most P preemptions (P iterated 0..bound, select-case choices free) of server recv/worker/send goroutines + scripted implementation + releaser, per scenario (request kinds x scripts x release order x Maxpend x dialect x segmentation; late answers of cancelled requests; a reactive client re-using a tag the moment its reply is read, with and without a Tflush of the second use and a third use after the Rflush; sessions renegotiated to a larger / smaller msize with reads of every size class; two connections of one server with different msize used in turn); distinct = distinct per-object operation orders (trace hash) ; more than 64 KiB of replies becoming ready behind a blocked writer; an implementation with SrvReqProcess / SrvReqRespond that packs replies again before they are sent",
 		Assumptions: []string{"code between two synchronisation operations is atomic (sound for race-free executions; C19 checks race freedom)", "transport modelled as an unbounded reliable byte queue", "map iteration fixed to ascending key order"},
 		Scenarios:   c03Scenarios, QuickS: 180, ThoroughS: 1500})
 }
